@@ -222,6 +222,9 @@ static void everything(int t, int r, unsigned seed, Results& res) {
     hd.LowPassFilter(buf.data(), 0.8, 0.3); take(a.Evolve(buf.data()));
     hd.AvgRampFilter(buf.data(), 1.1, 2.0, 0.5); take(a.Evolve(buf.data()));
     acc.push_back(a * w);
+    // scalar products whose operands are unevaluated expressions (evaluated into temporaries inside the library)
+    acc.push_back(iCommutator(a, w) * w); acc.push_back(iCommutator(a, w) * ACommutator(a, w)); acc.push_back((a + w) * (a - w));
+    acc.push_back(w * ACommutator(a, w)); acc.push_back((a * 2.0) * (w * 0.5)); acc.push_back(a.Evolve(hd, 0.4) * w.Evolve(hd, 0.4));
     // fused statements whose target is an operand (evaluated through a temporary inside the library)
     { SU_vector x = a; x = iCommutator(x, w); take(x); x = ACommutator(w, x); take(x); x = x.Evolve(hd, 0.3); take(x);
       x += iCommutator(x, w); take(x); x -= ACommutator(x, w) * 0.0625; take(x); x = x.Evolve(buf.data()); take(x); }
